@@ -7,6 +7,7 @@ are discharged with z3.  See DESIGN.md section 2.
 import ast
 import hashlib
 import os
+import re
 import time
 import z3
 
@@ -97,7 +98,7 @@ def enum_const(qual, member):
 
 # =============================================================================== obligations
 class Oblig:
-    __slots__ = ("name", "kind", "hyps", "goal", "lineno", "status", "time", "model", "reason", "func", "text")
+    __slots__ = ("name", "kind", "hyps", "goal", "lineno", "status", "time", "model", "reason", "func", "text", "tag")
 
     def __init__(self, name, kind, hyps, goal, lineno, func, text=""):
         self.name = name
@@ -195,7 +196,9 @@ def conjuncts(t):
 class Ctx:
     """Verification of one function against one contract."""
 
-    def __init__(self, qual, contract, registry, budget=10.0, label=None):
+    def __init__(self, qual, contract, registry, budget=10.0, label=None, prop=None):
+        self.prop = prop
+        self.cur_tag = None
         self.qual = qual
         self.label = label or qual
         self.contract = contract
@@ -237,6 +240,19 @@ class Ctx:
         visit(fdef)
         return out
 
+    def clauses(self, lst):
+        """contract clauses may carry an owner tag '@C04 <expr>': such a clause belongs to that property only
+        (dropped - neither checked nor assumed - when another property is being checked).  -> [(text, tag)]"""
+        out = []
+        for c in lst or []:
+            m = re.match(r"\s*@(C\d+)\s+(.*)$", c, re.S)
+            if m:
+                if self.prop is None or m.group(1) == self.prop:
+                    out.append((m.group(2), m.group(1)))
+            else:
+                out.append((c, None))
+        return out
+
     # ---------------------------------------------------------------- obligations
     def oblig(self, kind, st, goal, node=None, text=""):
         """record + discharge one obligation (split into conjuncts)."""
@@ -266,7 +282,10 @@ class Ctx:
         o = Oblig(name, kind, [] if status == "discharged" else st.pc, goal,
                   getattr(node, "lineno", 0), self.label, text)
         o.status, o.time, o.model, o.reason = status, dt, model, reason
+        o.tag = self.cur_tag
         self.obligs.append(o)
+        if os.environ.get("KVC_TRACE"):
+            print("  [%s %.2fs] %s" % (status, dt, name[:140]), flush=True)
         return status == "discharged"
 
     def feasible(self, st, cond):
@@ -297,12 +316,16 @@ class Ctx:
             st.env[p] = fresh(sh, p, facts, kind)
             if isinstance(st.env[p], Seq):
                 st.env[p].root = p
+        for g, shs in c.get("ghost_vars", {}).items():
+            sh = parse_shape(shs)
+            self._declare_enums(sh)
+            st.env[g] = fresh(sh, g, facts)
         st.pc.extend(facts)
         self.old_env = dict(st.env)
         ev = Eval(self, self.module, spec=True)
-        for r in c.get("requires", []):
+        for r, _ in self.clauses(c.get("requires", [])):
             st.pc.append(ev.spec_bool(r, st))
-        for ax in c.get("axioms", []):
+        for ax, _ in self.clauses(c.get("axioms", [])):
             st.pc.append(ev.spec_bool(ax, st))
         # vacuity guard: requires must be satisfiable
         s = z3.Solver()
@@ -337,9 +360,11 @@ class Ctx:
             val = coerce_to_shape(val, parse_shape(rsh), st)
         st.env["result"] = val
         ev = Eval(self, self.module, spec=True)
-        for i, e in enumerate(c.get("ensures", [])):
+        for i, (e, tag) in enumerate(self.clauses(c.get("ensures", []))):
             g = ev.spec_bool(e, st)
-            self.oblig("post %d: %s" % (i, e), st, g, node, e)
+            self.cur_tag = tag
+            self.oblig("post: %s" % e, st, g, node, e)
+            self.cur_tag = None
         for p in c.get("unmodified", []):
             pass
 
@@ -448,7 +473,7 @@ def skolemize(hyps, goal):
             goal = goal.arg(1)
         elif z3.is_or(goal):
             parts = goal.children()
-            qs = [p for p in parts if z3.is_quantifier(p) and p.is_forall()]
+            qs = [p for p in parts if (z3.is_quantifier(p) and p.is_forall()) or z3.is_and(p)]
             if len(qs) != 1:
                 break
             for p in parts:
@@ -495,9 +520,13 @@ def relevant_defs(terms):
     return out
 
 
-def _check(hyps, goal, lem, ms, mbqi=True):
+def _check(hyps, goal, lem, ms, mbqi=True, seed=0, rlimit=0):
     s = z3.Solver()
     s.set("timeout", max(100, int(ms)))
+    if rlimit:
+        s.set("rlimit", int(rlimit))
+    if seed:
+        s.set("random_seed", seed)
     if not mbqi:
         s.set("smt.mbqi", False)
     s.add(*hyps)
@@ -507,49 +536,86 @@ def _check(hyps, goal, lem, ms, mbqi=True):
     defs = relevant_defs(list(hyps) + [goal] + list(lem or []))
     if defs:
         s.add(*defs)
+    if seed and not mbqi:
+        # restart in a fresh z3 context: re-parsing the query renumbers the terms, which (much more than the seed
+        # parameter) changes the instantiation order; only the verdict is needed from these attempts
+        ctx = z3.Context()
+        s2 = z3.Solver(ctx=ctx)
+        s2.set("timeout", max(100, int(ms)))
+        if rlimit:
+            s2.set("rlimit", int(rlimit))
+        s2.set("smt.random_seed", seed)
+        s2.set("smt.mbqi", False)
+        s2.from_string(s.to_smt2())
+        r = s2.check()
+        r = z3.unsat if r == z3.unsat else (z3.sat if r == z3.sat else z3.unknown)
+        return r, s
     r = s.check()
     return r, s
 
 
-def prove(hyps, goal, budget):
-    """unsat -> discharged; sat -> failed (model of the *full* VC); otherwise undecided.
-    Strategy (DESIGN 2.5): skolemise the goal, add instances of spec-function lemmas, z3;
-    on unknown retry with the quantifier-free hypotheses only (a weaker, hence sound, VC)."""
-    t0 = time.time()
+def prove(hyps, goal, budget, depth=0):
+    """conjunctions that appear under the goal's quantifier prefix are split: each conjunct is its own query"""
     hyps2, goal2 = skolemize(hyps, goal)
-    # phase 0: quantifier-free goal -> try the quantifier-free hypotheses alone (nonlinear steps are much faster
-    # without quantifiers); phase 1/2: E-matching only, without / with the nonlinear lemma instances;
-    # phase 3: with model-based instantiation (the only phase that can return a counter-model)
+    parts = conjuncts(goal2)
+    if len(parts) > 1 and depth < 3:
+        t0 = time.time()
+        worst = ("discharged", None, "z3")
+        for g in parts:
+            st, dt, model, reason = prove(hyps2, g, budget, depth + 1)
+            if os.environ.get("KVC_TRACE2"):
+                print("      part d%d [%s %.2fs] %s" % (depth, st, dt, g.sexpr()[:300].replace("\n", " ")), flush=True)
+            if st == "failed":
+                return st, time.time() - t0, model, reason
+            if st == "undecided":
+                worst = (st, None, reason)
+        return worst[0], time.time() - t0, worst[1], worst[2]
+    return prove1(hyps2, goal2, budget)
+
+
+def prove1(hyps2, goal2, budget):
+    """unsat -> discharged; sat -> failed (model of the *full* VC); otherwise undecided.
+
+    z3's run time on these VCs (quantifiers + arrays + uninterpreted functions) is heavy-tailed: the same query
+    is refuted in 10 ms or not in 60 s depending on the seed.  The budget is therefore spent on *restarts*:
+    several short, resource-limited attempts with different seeds (DESIGN 2.5).
+      A. quantifier-free goal: quantifier-free hypotheses only, with the nonlinear lemma instances (NLA steps);
+      B. all hypotheses, E-matching only (mbqi off), linear lemma instances, K restarts;
+      C. all hypotheses with model-based instantiation (the only phase that can return a counter-model)."""
+    t0 = time.time()
+    K = max(3, int(budget / 3))
+    RL = 3000000 if budget <= 30 else 10000000
     lem = spec_function_lemmas(hyps2, goal2)
     lem0 = spec_function_lemmas(hyps2, goal2, nonlinear=False)
     qf_goal = not has_quantifier(goal2)
     if qf_goal:
         qf = [h for h in hyps2 if not has_quantifier(h)]
         lemq = [l for l in (lem if goal_is_nonlinear(goal2) else lem0) if not has_quantifier(l)]
-        r, s = _check(qf, goal2, lemq, 1000, mbqi=False)
+        r, s = _check(qf, goal2, lemq, 1500, mbqi=False, rlimit=RL)
         if r == z3.unsat:
             return "discharged", time.time() - t0, None, "z3 (quantifier-free hypotheses)"
-    r, s = _check(hyps2, goal2, lem0, budget * 250, mbqi=False)
-    if r == z3.unsat:
-        return "discharged", time.time() - t0, None, "z3"
-    if qf_goal:
-        r, s = _check(qf, goal2, lemq, budget * 250, mbqi=False)
+    for seed in range(K):
+        r, s = _check(hyps2, goal2, lem0, 6000, mbqi=False, seed=seed, rlimit=RL)
         if r == z3.unsat:
-            return "discharged", time.time() - t0, None, "z3 (quantifier-free hypotheses)"
-    r, s = _check(hyps2, goal2, lem, budget * 1000)
+            return "discharged", time.time() - t0, None, "z3"
+        if seed == 0 and qf_goal:
+            r, s = _check(qf, goal2, lemq, budget * 250, mbqi=False, rlimit=RL * 4)
+            if r == z3.unsat:
+                return "discharged", time.time() - t0, None, "z3 (quantifier-free hypotheses)"
+        if seed == 1 and len(lem) != len(lem0):
+            r, s = _check(hyps2, goal2, lem, 6000, mbqi=False, rlimit=RL)
+            if r == z3.unsat:
+                return "discharged", time.time() - t0, None, "z3"
+    for seed in (0, 7, 23, 101):
+        r, s = _check(hyps2, goal2, lem, budget * 250, seed=seed, rlimit=RL * 2)
+        if r != z3.unknown:
+            break
     if r == z3.unsat:
         return "discharged", time.time() - t0, None, "z3"
     if r == z3.sat:
-        partial = bool(ground_apps(list(hyps2) + [goal2], "Sum_"))
-        return "failed", time.time() - t0, s.model(), "z3 sat" + (" (recursive spec functions instantiated finitely: model needs confirmation by replay)" if partial else "")
-    reason = s.reason_unknown()
-    qf = [h for h in hyps2 if not has_quantifier(h)]
-    if len(qf) < len(hyps2):
-        lem2 = [l for l in spec_function_lemmas(qf, goal2)]
-        r2, s2 = _check(qf, goal2, lem2, budget * 500, mbqi=False)
-        if r2 == z3.unsat:
-            return "discharged", time.time() - t0, None, "z3 (quantifier-free hypotheses)"
-    return "undecided", time.time() - t0, None, "z3 unknown: %s" % reason
+        partial = bool(ground_apps(list(hyps2) + [goal2], "Sum_")) or bool(ground_apps(list(hyps2) + [goal2], "rdiv"))
+        return "failed", time.time() - t0, s.model(), "z3 sat" + (" (recursive/partial spec functions instantiated finitely: model needs confirmation by replay)" if partial else "")
+    return "undecided", time.time() - t0, None, "z3 unknown: %s" % s.reason_unknown()
 
 
 def goal_is_nonlinear(t):
@@ -649,8 +715,8 @@ class Eval:
     def ev_Name(self, n, st):
         if n.id in st.env:
             return st.env[n.id]
-        if self.spec and n.id in self.ctx.contract.get("ghost", {}):
-            return self.spec_val(self.ctx.contract["ghost"][n.id], st)
+        if self.spec and n.id in self.ctx.contract.get("macros", {}):
+            return self.spec_val(self.ctx.contract["macros"][n.id], st)
         if n.id in self.module.imports:
             return ModV(self.module.imports[n.id])
         if n.id in self.module.funcs:
@@ -903,8 +969,11 @@ class Eval:
                 return z3.IntVal(c)
             self.need("%s in bounds" % what, st, z3.IntVal(-c) <= seq_n, node)
             return z3.simplify(seq_n + c)
+        if self.spec:
+            # specification indices are plain (no negative wrap-around): the contract author keeps them in range
+            return t
         self.need("%s in bounds" % what, st, z3.And(-seq_n <= t, t < seq_n), node)
-        if not self.spec and not self.ctx.feasible(st, t < 0):
+        if not self.ctx.feasible(st, t < 0):
             return t
         return z3.If(t < 0, t + seq_n, t)
 
@@ -925,6 +994,8 @@ class Eval:
                 return z3.If(r < 0, z3.IntVal(0), r)
             return z3.If(seq_n < c, seq_n, z3.IntVal(c))
         # symbolic: negative wraps, then clamp
+        if self.spec:
+            return t      # plain bounds in specifications (kept in range by the contract author)
         if self.ctx.feasible(st, t < 0):
             w = z3.If(t < 0, t + seq_n, t)
         else:
@@ -942,6 +1013,8 @@ class Eval:
             raise Unsupported("slice step")
         lo = self.clamp(base.n, sl.lower, z3.IntVal(0), st)
         hi = self.clamp(base.n, sl.upper, base.n, st)
+        if self.spec:
+            return Seq(z3.simplify(hi - lo), z3.simplify(base.off + lo), base.arrs, base.esh, base.kind)
         return base.slice(lo, hi)
 
     def subscript(self, base, sl, st, node):
@@ -1418,6 +1491,9 @@ class Exec:
             pass
         return None
 
+    def ghost_written(self, spec):
+        return {g.split("=", 1)[0].strip() for g in spec.get("ghost_end", [])}
+
     def loop_spec(self, node):
         k = self.loop_ord.get(id(node))
         spec = self.loops.get(k)
@@ -1438,6 +1514,16 @@ class Exec:
         s2.pc.extend(facts)
         return s2
 
+    def ghost_end(self, spec, st):
+        """ghost assignments 'name = expr' executed at the end of every body path (they may read the
+        loop-head values _h_<name>); they only write ghost variables, so they cannot affect the code"""
+        for g in spec.get("ghost_end", []):
+            name, expr = g.split("=", 1)
+            name = name.strip()
+            if name not in self.ctx.contract.get("ghost_vars", {}):
+                raise Unsupported("ghost assignment to non-ghost variable %s" % name)
+            st.env[name] = self.sev.spec_val(expr, st)
+
     def snapshot(self, st, names):
         """loop-head values of the modified variables, visible to hints as _h_<name>"""
         for nm in names:
@@ -1446,26 +1532,30 @@ class Exec:
 
     def hints(self, k, spec, st, node):
         """auto-active hints: each is proved in the end-of-body state from the previous ones, then assumed"""
-        for i, h in enumerate(spec.get("hints", [])):
+        for i, (h, tag) in enumerate(self.ctx.clauses(spec.get("hints", []))):
             g = self.sev.spec_bool(h, st)
-            self.ctx.oblig("loop %d: hint [%d]: %s" % (k, i, h), st, g, node, h)
+            self.ctx.cur_tag = tag
+            self.ctx.oblig("loop %d: hint: %s" % (k, h), st, g, node, h)
+            self.ctx.cur_tag = None
             st.pc.append(g)
 
     def check_inv(self, tag, spec, st, node):
-        for i, inv in enumerate(spec.get("inv", [])):
+        for i, (inv, ptag) in enumerate(self.ctx.clauses(spec.get("inv", []))):
             g = self.sev.spec_bool(inv, st)
-            self.ctx.oblig("%s [%d]: %s" % (tag, i, inv), st, g, node, inv)
+            self.ctx.cur_tag = ptag
+            self.ctx.oblig("%s: %s" % (tag, inv), st, g, node, inv)
+            self.ctx.cur_tag = None
 
     def assume_inv(self, spec, st):
-        for inv in spec.get("inv", []):
+        for inv, _ in self.ctx.clauses(spec.get("inv", [])):
             st.pc.append(self.sev.spec_bool(inv, st))
 
     def st_While(self, s, st):
         k, spec = self.loop_spec(s)
         self.check_inv("loop %d: invariant on entry" % k, spec, st, s)
-        head = self.havoc(st, self.modified(s), k)
+        head = self.havoc(st, self.modified(s) | self.ghost_written(spec), k)
         self.assume_inv(spec, head)
-        self.snapshot(head, self.modified(s))
+        self.snapshot(head, self.modified(s) | self.ghost_written(spec))
         var0 = None
         if "var" in spec:
             var0 = as_num(self.sev.spec_val(spec["var"], head)).t
@@ -1481,6 +1571,7 @@ class Exec:
             b.pc.append(g)
             r = self.block(s.body, [b])
             for e in r["normal"] + r["cont"]:
+                self.ghost_end(spec, e)
                 self.hints(k, spec, e, s)
                 self.check_inv("loop %d: invariant preserved" % k, spec, e, s)
                 v1 = as_num(self.sev.spec_val(spec["var"], e)).t
@@ -1507,7 +1598,7 @@ class Exec:
         st.env[itname] = Num(z3.IntVal(0))
         st.env["_n%d" % k] = Num(N)
         self.check_inv("loop %d: invariant on entry" % k, spec, st, s)
-        mods = self.modified(s)
+        mods = self.modified(s) | self.ghost_written(spec)
         mods.add(itname)
         head = self.havoc(st, mods - self.target_names(s.target), k)
         it = head.env[itname].t
@@ -1526,6 +1617,7 @@ class Exec:
             for e in r["normal"] + r["cont"]:
                 e = e.fork()
                 e.env[itname] = Num(it + 1)
+                self.ghost_end(spec, e)
                 self.hints(k, spec, e, s)
                 self.check_inv("loop %d: invariant preserved" % k, spec, e, s)
             out["ret"].extend(r["ret"])
